@@ -633,7 +633,7 @@ class FieldValueComponentUrl(FieldValueComponentKeyValueBase):
 
     def _get_value_as_simple_type(self):
         if self.value.scheme == 'mailto':
-            value = 'mailto:' + self.value.path[1:]
+            value = 'mailto:' + (self.value.path or '')[1:]
             if self.value.query is not None:
                 value += '?' + self.value.query
             if self.value.fragment is not None:
